@@ -67,16 +67,14 @@ namespace SvgObj
 def idsOf (root : Node) : List String :=
   root.elems.filterMap (fun n => if (Node.splitNs n.tag).1 == some svgNs then n.getAttr "id" else none)
 
+/-- the search loop of `_new_id`: the lowest `pre ++ i` (i ≥ start) not in `ids` -/
+def newIdGo (ids : List String) (pre : String) : (i fuel : Nat) → Except PyErr String
+  | _, 0 => .error .valueError
+  | i, fuel + 1 =>
+    if ids.contains (pre ++ toString i) then newIdGo ids pre (i + 1) fuel else .ok (pre ++ toString i)
+
 /-- `_new_id(template)`: the lowest free `template % i` -/
-def newId (root : Node) (pre : String) : Except PyErr String :=
-  let ids := idsOf root
-  let rec go (i : Nat) (fuel : Nat) : Except PyErr String :=
-    match fuel with
-    | 0 => .error .valueError
-    | fuel + 1 =>
-      let cand := pre ++ toString i
-      if ids.contains cand then go (i + 1) fuel else .ok cand
-  go 0 65536
+def newId (root : Node) (pre : String) : Except PyErr String := newIdGo (idsOf root) pre 0 65536
 
 /-- deep copy with fresh uids and every `id` stripped (`copy.deepcopy` + the id loop) -/
 def copyStripIds (n : Node) : DocM Node := do
